@@ -15,7 +15,7 @@
 From Coq Require Import ZArith List Bool.
 Require Import Rig.Generated.GenTable Rig.Generated.GenTableEnums.
 Require Import Rig.Model.Base Rig.Model.Table Rig.Spec.Table.
-Require Import Rig.Proofs.TableCheck Rig.Proofs.Table Rig.Proofs.TableOC3.
+Require Import Rig.Proofs.TableCheck Rig.Proofs.Table Rig.Proofs.TableIns Rig.Proofs.TableOC3.
 Import ListNotations.
 Open Scope Z_scope.
 
@@ -110,6 +110,16 @@ Theorem C04_minimise_tables_route_eq :
   | TablesOutOfFuel => False
   end.
 Proof. exact minimise_tables_domain_spec. Qed.
+
+(* The model's own bounds are not restrictions: the loop bounds of ordered covering are never reached
+   (no OutOfFuel above), and the bound of the binary search of _get_insertion_index can be enlarged at
+   will without changing the result. *)
+Theorem C04_insertion_index_bound_irrelevant :
+  forall gens G extra,
+  gens <> [] ->
+  bsearch (length gens) gens G 0 (length gens / 2) (length gens)
+  = bsearch (length gens + extra) gens G 0 (length gens / 2) (length gens).
+Proof. exact insertion_index_fuel. Qed.
 
 (* the domain is inhabited by a table on which ordered covering really merges (0000 and 0001 with one
    route become 000X; 0010 with another route stays) *)
